@@ -298,11 +298,13 @@ async def _run_app(
 
     runner = AppRunner(app, **kwargs)
 
-    await runner.setup()
-
     sites: list[BaseSite] = []
 
     try:
+        # setup() runs inside the try block so that the cleanup contexts that
+        # did start are cleaned up if a later start-up step fails.
+        await runner.setup()
+
         if host is not None:
             if isinstance(host, str):
                 sites.append(
